@@ -23,6 +23,7 @@ func init() { register("C04", checkC04) }
 
 const futModelVariant = "fix"
 
+var askLifeDefaults = map[string]any{"e": "", "a": "", "s": "", "v": 0, "n": 0, "m": 0, "t": 0}
 var askDefaults = map[string]any{"e": "", "a": "", "s": "", "v": 0, "n": 0, "p": ""}
 
 type futStep struct {
@@ -469,6 +470,34 @@ func checkC04(c *core.Ctx) {
 	c.Add("evaluations", int64(nStress))
 	c.Set("parallel_pipe_stress_futures", nStress)
 	traces = append(traces, st...)
+	// the asker's side: several Asks of one asker, then the asker ends (Registry.tla, judged by AskLifeMon)
+	if !os_skipMC() {
+		r, err := tlc.Exec(tlc.Run{Dir: dir, Module: "Registry", Config: "MC_Registry_fix.cfg", Timeout: 3 * time.Minute})
+		if err != nil || r.Violation != "" {
+			c.Broken("model checking Registry failed on the model of record: %v %s\n%s", err, vio(r), tailOf(r))
+			return
+		}
+		c.MC("Registry/MC_Registry_fix.cfg", r)
+		for _, v := range []string{"wipe", "scan"} {
+			if r2, err := tlc.Exec(tlc.Run{Dir: dir, Module: "Registry", Config: "MC_Registry_" + v + ".cfg", Timeout: 3 * time.Minute}); err == nil {
+				c.Set("registry_variant_"+v+"_violates", r2.ViolatedName)
+			}
+		}
+	}
+	var life []*Trace
+	for i := 0; i < core.Pick(c, 90, 1200); i++ {
+		t, err := runAskerLife(c.Seed, i)
+		if err != nil {
+			c.Broken("asker life scenario %d: %v", i, err)
+			return
+		}
+		c.Add("evaluations", 1)
+		life = append(life, t)
+	}
+	lres := ValidateTraces(c, "future", "AskLifeMon", "AskLifeMon.cfg", life, askLifeDefaults)
+	lres.Report(c, "AskLifeMon")
+	c.Add("traces_validated_against_impl", int64(lres.Validated))
+	c.Set("asker_life_rounds", len(life))
 	res := ValidateTraces(c, "future", "AskMon", "AskMon.cfg", traces, askDefaults)
 	res.Report(c, "AskMon")
 	c.Add("traces_validated_against_impl", int64(res.Validated))
